@@ -7,15 +7,32 @@ package cpusuppress
 
 import (
 	"fmt"
+	"os"
 	"sort"
 	"strconv"
 	"strings"
+	"testing"
 
 	"k8s.io/klog/v2"
 
 	koordletutil "github.com/koordinator-sh/koordinator/pkg/koordlet/util"
+	"github.com/koordinator-sh/koordinator/pkg/koordlet/util/system"
 	kit "github.com/koordinator-sh/koordinator/pkg/verifkit"
 )
+
+// c10CgroupBase prepares the koordlet's system configuration for a fake cgroup-v1 file system the
+// way the package's own tests do (system.NewFileTestUtil) and returns the directory under which
+// every case creates its own cgroup root. A memory file system is preferred: the units are
+// dominated by small file operations.
+func c10CgroupBase(t *testing.T) string {
+	helper := system.NewFileTestUtil(t)
+	helper.SetCgroupsV2(false)
+	if d, err := os.MkdirTemp("/dev/shm", "verif-c10-"); err == nil {
+		t.Cleanup(func() { _ = os.RemoveAll(d) })
+		return d
+	}
+	return helper.TempDir
+}
 
 func init() {
 	klog.SetOutput(c10Discard{})
